@@ -75,8 +75,8 @@ func TestBoundedC15(t *testing.T) {
 		n = 8
 	}
 	r := &boundedReport{ID: "C15.annotation-normalised", Prop: "C15", Exhaustive: true,
-		Rule: fmt.Sprintf("every text over {a, b, space, tab, CR, LF} up to length %d: Annotation(t) has no leading/trailing whitespace, no whitespace other than single spaces, keeps the non-blank characters in order, and Annotation is idempotent; non-trivial = text with a whitespace character", n)}
-	enumStrings([]string{"a", "b", " ", "\t", "\r", "\n"}, n, func(s string) {
+		Rule: fmt.Sprintf("every text over {a, \u00e0 (bytes C3 A0: its second byte is a space to anything that classifies bytes as runes), space, tab, CR, LF} up to length %d: Annotation(t) has no leading/trailing whitespace, no whitespace other than single spaces, keeps the non-blank characters in order, and Annotation is idempotent; non-trivial = text with a whitespace character", n)}
+	enumStrings([]string{"a", "\u00e0", " ", "\t", "\r", "\n"}, n, func(s string) {
 		r.Evals++
 		if strings.ContainsAny(s, " \t\r\n") {
 			r.Distinct++
